@@ -75,6 +75,25 @@ Theorem C15_corrupt_rejected :
   decode (xor_bytes (m ++ crc_bytes m) e ++ t) = None.
 Proof. exact corrupt_rejected. Qed.
 
+(* the same two facts for the executable check that the correspondence runs against PDU::decode
+   (receiver_frame_check = delimit the frame from the header, then crc_frame_ok on it) *)
+Theorem C15_model_check_rejects : forall m e t : list N,
+  is_bytes m -> is_bytes e ->
+  crc_flag_of_header m = true ->
+  frame_len_of_header m = Some (length m + 2)%nat ->
+  length e = length (m ++ crc_bytes m) ->
+  fixed_header_untouched e ->
+  crc16_detectable e ->
+  receiver_frame_check (xor_bytes (m ++ crc_bytes m) e ++ t) = false.
+Proof. exact receiver_frame_check_rejects. Qed.
+
+Theorem C15_model_check_clean : forall m t : list N,
+  crc_flag_of_header m = true ->
+  frame_len_of_header m = Some (length m + 2)%nat ->
+  receiver_frame_check ((m ++ crc_bytes m) ++ t) = true /\
+  receiver_consumed ((m ++ crc_bytes m) ++ t) = Some (length m + 2)%nat.
+Proof. exact receiver_frame_check_clean. Qed.
+
 (* ---- non-vacuity ---- *)
 
 (* the hypotheses of C15_corrupt_rejected are satisfiable together: the historical witness (an EOF
@@ -145,6 +164,20 @@ Check C15_corrupt_rejected :
   crc16_detectable e ->
   decode (xor_bytes (m ++ crc_bytes m) e ++ t) = None.
 
+Check C15_model_check_rejects : forall m e t : list N,
+  is_bytes m -> is_bytes e ->
+  crc_flag_of_header m = true ->
+  frame_len_of_header m = Some (length m + 2)%nat ->
+  length e = length (m ++ crc_bytes m) ->
+  fixed_header_untouched e ->
+  crc16_detectable e ->
+  receiver_frame_check (xor_bytes (m ++ crc_bytes m) e ++ t) = false.
+Check C15_model_check_clean : forall m t : list N,
+  crc_flag_of_header m = true ->
+  frame_len_of_header m = Some (length m + 2)%nat ->
+  receiver_frame_check ((m ++ crc_bytes m) ++ t) = true /\
+  receiver_consumed ((m ++ crc_bytes m) ++ t) = Some (length m + 2)%nat.
+
 Print Assumptions C15_clean_accepted.
 Print Assumptions C15_crc_affine.
 Print Assumptions C15_single_bit.
@@ -153,3 +186,5 @@ Print Assumptions C15_burst16.
 Print Assumptions C15_odd_weight.
 Print Assumptions C15_frame_delimited_by_header.
 Print Assumptions C15_corrupt_rejected.
+Print Assumptions C15_model_check_rejects.
+Print Assumptions C15_model_check_clean.
